@@ -547,6 +547,94 @@ pub fn run(ctx: &Ctx) -> Report {
         }
     });
     rep.merge(r);
+    // ---- the backend's callback returns its own error in the middle of a row (`?` on its data source
+    //      between two cells): the cells of the row it never finished are in no message the client
+    //      reassembles, whatever the library adds on its way out (the unchanged library adds nothing);
+    //      the rows it did finish arrive as they were written
+    let n = if ctx.miri { 2 } else { ctx.n(600, 10_000) };
+    let r = par_cases(ctx, "C04", "backend-gives-up-in-mid-row", n, |rng, i, rep| {
+        let ncols = rng.range(2, 4) as usize;
+        let cols: Vec<_> = (0..ncols).map(|k| simple_col(&format!("c{}", k), ColumnType::MYSQL_TYPE_VAR_STRING)).collect();
+        let bin = i % 2 == 1;
+        let nrows = rng.below(4);
+        let mut ops = vec![QOp::Start(0)];
+        let mut want_rows: Vec<Vec<u8>> = Vec::new();
+        for r in 0..nrows {
+            let vals: Vec<Vec<u8>> = (0..ncols).map(|c| format!("row{}-col{}-{}", r, c, "x".repeat(rng.below(40) as usize)).into_bytes()).collect();
+            let mut enc = Vec::new();
+            if bin {
+                enc.push(0);
+                enc.extend(std::iter::repeat(0u8).take((ncols + 7 + 2) / 8));
+            }
+            for v in &vals {
+                wire::put_lenenc_str(&mut enc, v);
+            }
+            want_rows.push(enc);
+            ops.push(QOp::Row(vals.into_iter().map(|v| Cell::val(V::Bytes(v))).collect(), RowForm::Owned));
+        }
+        let marker = format!("NEVER-FINISHED-{}-", i).into_bytes();
+        let k = rng.range(1, ncols as u64 - 1) as usize;
+        for c in 0..k {
+            let mut v = marker.clone();
+            v.extend_from_slice(format!("cell{}", c).as_bytes());
+            ops.push(QOp::Col(Cell::val(V::Bytes(v))));
+        }
+        ops.push(QOp::Bail(3000 + i));
+        let mut cmds = vec![Cmd::prepare(b"p")];
+        let mut scripts = vec![Script::PrepOk { id: 1, params: vec![], cols: cols.clone() }];
+        cmds.push(if bin { Cmd::execute_plain(1, &[], false) } else { Cmd::query(b"q") });
+        scripts.push(Script::Q(QProg { colsets: vec![cols.clone()], ops, on_err: OnErr::Drop }));
+        if rng.bool() {
+            cmds.push(Cmd::ping());
+        }
+        let mut case = Case::new(cmds, scripts);
+        if rng.bool() {
+            case.write_limit = *rng.pick(&[1usize, 7, 100, 4096]);
+        }
+        let obs = run_case(&case);
+        rep.evaluations += 1;
+        if harness_panic(&obs, rep) {
+            return;
+        }
+        rep.counters.class(format!("backend gives up after {} of {} cells of a row, {} finished rows, {}", k, ncols, nrows, if bin { "binary" } else { "text" }));
+        let d = || J::obj().set("columns", ncols).set("finished_rows", nrows).set("cells_of_the_unfinished_row", k).set("protocol", if bin { "binary" } else { "text" }).set("outcome", obs.outcome.describe());
+        if i < 2 {
+            rep.sample(d());
+        }
+        if let Outcome::Panic { file, line, msg } = &obs.outcome {
+            rep.violations.push(viol("C04", format!("C04 {}", panic_signature(file, *line, msg)), format!("panic while the backend gave up in mid-row: {}", obs.outcome.describe()), d()));
+            return;
+        }
+        let out = obs.output();
+        let (pkts, used) = wire::packets_prefix(&out);
+        if used != out.len() {
+            rep.violations.push(viol("C04", "C04 bad-framing".into(), format!("{} bytes at the end of the output do not form a packet", out.len() - used), d()));
+            return;
+        }
+        let (msgs, _) = wire::messages_prefix(&out, &pkts);
+        rep.counters.add("messages_reassembled", msgs.len() as u64);
+        for (mi, m) in msgs.iter().enumerate() {
+            if m.payload.windows(marker.len()).any(|w| w == &marker[..]) {
+                rep.violations.push(viol("C04", "C04 unfinished-row-reaches-the-client".into(), format!("message #{} that the client reassembles ({} bytes, first byte {:#04x}) contains a cell of the row the backend never finished", mi, m.payload.len(), m.payload.first().copied().unwrap_or(0)), d()));
+                return;
+            }
+        }
+        // the finished rows: greeting, auth OK, PREPARE reply (OK + ncols definitions + EOF), then the
+        // resultset header (count, definitions, EOF) and the rows
+        let first_row = 2 + (1 + ncols + 1) + (1 + ncols + 1);
+        for (r, want) in want_rows.iter().enumerate() {
+            match msgs.get(first_row + r) {
+                Some(m) if &m.payload == want => rep.counters.inc("finished_rows_compared"),
+                other => {
+                    rep.violations.push(viol("C04", "C04 finished-row-differs".into(), format!("row {} that the backend finished before it gave up arrives as {:?}", r, other.map(|m| show(&m.payload[..m.payload.len().min(60)]))), d()));
+                    return;
+                }
+            }
+        }
+        rep.counters.inc("abandoned_in_mid_row_checked");
+    });
+    rep.merge(r);
+
     // ---- a transport that is slow for a moment: rows of a few KB under short writes, and ONE transient
     //      error (WouldBlock / TimedOut / Interrupted) on one write or flush, often in the middle of a
     //      packet that the transport has already taken a part of. The server may give up (that is
